@@ -125,7 +125,7 @@ def execute(case, force_real=False):
 def full_cases():
     from vlib import cfggen
 
-    return cfggen.full_config(modes=("scalar", "scalar", "blobs", "blobs2", "blobs_auto", "blobs_str"), pools=(None,))
+    return cfggen.full_config(modes=("scalar", "scalar", "blobs", "blobs2", "blobs_auto", "blobs_str", "blobs_rec", "blobs_arr"), pools=(None,))
 
 
 def run_full(case, mode, pool):
